@@ -12,7 +12,7 @@ import (
 
 func init() {
 	register("C09", runC09, propMeta{
-		Explanation: "Decides the recover discipline and the absence of engine-level panics and unbounded loops, for all rule texts and injected data: (R1) RuleEntity.Execute — the only door from the engine into the interpreter — and the four call/assignment evaluators each register, before anything that can panic, a deferred literal that calls recover() and on a non-nil result stores a newly created error into the function's error result (the rule entry also clears the returned-flag); (R2) every goroutine literal of the product calls nothing but panic-safe workers, addResult, fmt.Sprintf, errors.New, append, mutex and WaitGroup operations, and contains no indexing, slicing, unchecked type assertion or division, so a goroutine cannot die with an unrecovered panic; (R3) every Evaluate/Execute of the interpreter is called only from package base, except RuleEntity.Execute; (R4) in the engine a value looked up with comma-ok is never used on the miss edge, every constant or len-1 index into a rule list is dominated by a length test that implies it is in range, counted indexes stay below the len they are compared with, the N-M windows are dominated by their parameter checks, and the nil-able pool master is guarded (C16-Q1); (R5) loop inventory over base, core, context, iter, engine, builder and tool: every loop is a range loop, a counted loop with a +1 counter compared to a bound, the iterator loop whose Key() advances the cursor by one and whose Next() is cursor < length, the ForStmt loop in which every iteration increments a counter and returns an error beyond maxExecuteNum, or one of two named loops (getGengine's wait loop — C17; tool.BinarySearch, whose every iteration returns or moves low/high past mid); (R6) WaitGroup counts agree with the goroutines started (A4) on one snapshot (C07-U1), so Wait cannot hang or panic; (R7) collected errors always surface (every execute method); (R8) the lock-order graph of the product is acyclic and no pool lock is held while rules run. (R9) a mutex locked without a covering deferred unlock is released on every return and is not held across anything that can fault on rule-controlled data (a call into reflect, through an interface or a function value, an explicit panic, an unchecked type assertion, directly or in module callees), so a recovered fault cannot leave it locked. (R10) in MapVar.Evaluate reflect.Zero stands in only for the absent key of a map, never for an index outside a slice or array. Not decided: termination of injected host functions (assumed by the property); Go-fatal conditions recover cannot catch (stack exhaustion, concurrent map writes on host data). (R11) the value of an if / else-if / for condition is tested through reflect's Bool() or under a kind test whose other edge returns an error: a non-boolean condition is a fault, never 'false'. (R12) ReturnStatement.Evaluate says 'returned' only where the error of its expression is known to be nil. (R13) in every function that calls recover(), each way on from a non-nil recovered value stores a new error into an error variable of the enclosing function. The bound Next() compares the cursor with is a number or key list stored in the iterator when NewInter made it and stored by nothing else, so a body that grows the ranged collection cannot keep a forRange running.",
+		Explanation: "Decides the recover discipline and the absence of engine-level panics and unbounded loops, for all rule texts and injected data: (R1) RuleEntity.Execute — the only door from the engine into the interpreter — and the four call/assignment evaluators each register, before anything that can panic, a deferred literal that calls recover() and on a non-nil result stores a newly created error into the function's error result (the rule entry also clears the returned-flag); (R2) every goroutine literal of the product calls nothing but panic-safe workers, addResult, fmt.Sprintf, errors.New, append, mutex and WaitGroup operations, and contains no indexing, slicing, unchecked type assertion or division, so a goroutine cannot die with an unrecovered panic; (R3) every Evaluate/Execute of the interpreter is called only from package base, except RuleEntity.Execute; (R4) in the engine a value looked up with comma-ok is never used on the miss edge, every constant or len-1 index into a rule list is dominated by a length test that implies it is in range, counted indexes stay below the len they are compared with, the N-M windows are dominated by their parameter checks, and the nil-able pool master is guarded (C16-Q1); (R5) loop inventory over base, core, context, iter, engine, builder and tool: every loop is a range loop, a counted loop with a +1 counter compared to a bound, the iterator loop whose Key() advances the cursor by one and whose Next() is cursor < length, the ForStmt loop in which every iteration increments a counter and returns an error beyond maxExecuteNum, or one of two named loops (getGengine's wait loop — C17; tool.BinarySearch, whose every iteration returns or moves low/high past mid); (R6) WaitGroup counts agree with the goroutines started (A4) on one snapshot (C07-U1), so Wait cannot hang or panic; (R7) collected errors always surface (every execute method); (R8) the lock-order graph of the product is acyclic and no pool lock is held while rules run. (R9) a mutex locked without a covering deferred unlock is released on every return and is not held across anything that can fault on rule-controlled data (a call into reflect, through an interface or a function value, an explicit panic, an unchecked type assertion, directly or in module callees), so a recovered fault cannot leave it locked. (R10) in MapVar.Evaluate reflect.Zero stands in only for the absent key of a map, never for an index outside a slice or array. Not decided: termination of injected host functions (assumed by the property); Go-fatal conditions recover cannot catch (stack exhaustion, concurrent map writes on host data). (R11) the value of an if / else-if / for condition is tested through reflect's Bool() or under a kind test whose other edge returns an error: a non-boolean condition is a fault, never 'false'. (R12) ReturnStatement.Evaluate says 'returned' only where the error of its expression is known to be nil. (R13) in every function that calls recover(), each way on from a non-nil recovered value stores a new error into an error variable of the enclosing function. The bound Next() compares the cursor with is a number or key list stored in the iterator when NewInter made it and stored by nothing else, so a body that grows the ranged collection cannot keep a forRange running. (R14) a function that calls recover() cannot fault itself: its slice expressions start at nothing, a non-negative constant, len() or a value tested against a lower bound; it holds no unchecked assertion, division or panic.",
 		Assumptions: []string{"injected functions terminate", "recover() catches every panic raised by reflect and by rule evaluation"},
 		Trusted:     commonTrusted,
 	})
@@ -337,6 +337,7 @@ func runC09(c *Ctx) {
 	// error variable of the enclosing function. A recover that turns only some kinds of panic value into
 	// an error (a type switch without default) turns the others into success
 	c.ruleRecoverAlwaysReports("R13-a-recovered-panic-is-reported")
+	c.ruleRecoverHandlersCannotFault("R14-recover-handlers-cannot-fault")
 	c.Min("R9-lock-released-when-faulting", 20)
 	// R10
 	c.ruleNoZeroForAFault("R10-no-zero-for-a-fault")
@@ -1095,4 +1096,87 @@ func (c *Ctx) ruleRecoverAlwaysReports(rule string) {
 		c.Lost(rule, "calls of recover()")
 	}
 	c.Min(rule, 5)
+}
+
+// ruleRecoverHandlersCannotFault (R14): the function that calls recover() has consumed the panic by
+// then; a fault of its own (a slice cut at a position that can be negative, an index, an unchecked
+// type assertion, a division, a panic) is a new panic with nothing above it in a goroutine of a conc
+// block. Checked: a slice expression starts at nothing, at a non-negative constant, or at a value the
+// handler has tested against a lower bound; no index expression on a non-constant index, no
+// unchecked assertion, no division, no panic.
+func (c *Ctx) ruleRecoverHandlersCannotFault(rule string) {
+	n := 0
+	for _, f := range c.AllFns {
+		if f.Pkg == nil || !strings.HasPrefix(f.Pkg.Pkg.Path(), modPath) || f.Pkg.Pkg.Path() == pParser {
+			continue
+		}
+		calls := false
+		eachInstr(f, func(in ssa.Instruction) {
+			if call, ok := in.(*ssa.Call); ok {
+				if bi, isB := call.Call.Value.(*ssa.Builtin); isB && bi.Name() == "recover" {
+					calls = true
+				}
+			}
+		})
+		if !calls {
+			continue
+		}
+		n++
+		x := c.Index(f)
+		bad := ""
+		var badPos token.Pos
+		lowerBounded := func(v ssa.Value, at *ssa.BasicBlock) bool {
+			cell := x.Cell(v)
+			for _, g := range x.GuardsOf(at) {
+				bo, ok := g.Cond.(*ssa.BinOp)
+				if !ok {
+					continue
+				}
+				same := func(a ssa.Value) bool {
+					return x.sameValue(a, v) || (cell != nil && x.Cell(a) == cell)
+				}
+				switch {
+				case same(bo.X) && ((bo.Op == token.GEQ || bo.Op == token.GTR) == g.Pol) && (bo.Op == token.GEQ || bo.Op == token.GTR || bo.Op == token.LSS || bo.Op == token.LEQ):
+					return true
+				case same(bo.X) && bo.Op == token.NEQ && g.Pol, same(bo.X) && bo.Op == token.EQL && !g.Pol:
+					return true
+				case same(bo.Y) && ((bo.Op == token.LEQ || bo.Op == token.LSS) == g.Pol) && (bo.Op == token.GEQ || bo.Op == token.GTR || bo.Op == token.LSS || bo.Op == token.LEQ):
+					return true
+				}
+			}
+			return false
+		}
+		eachInstr(f, func(in ssa.Instruction) {
+			switch t := in.(type) {
+			case *ssa.Slice:
+				if t.Low == nil {
+					return
+				}
+				if k, isK := constInt(x.Origin(t.Low)); isK && k >= 0 {
+					return
+				}
+				if _, isLen := builtinCall(x.Origin(t.Low), "len"); isLen {
+					return
+				}
+				if lowerBounded(t.Low, in.Block()) {
+					return
+				}
+				bad, badPos = "a slice expression starting at "+x.Describe(t.Low)+", which is not shown to be non-negative", in.Pos()
+			case *ssa.TypeAssert:
+				if !t.CommaOk && x.Origin(t) == ssa.Value(t) {
+					bad, badPos = "an unchecked type assertion", in.Pos()
+				}
+			case *ssa.BinOp:
+				if t.Op == token.QUO || t.Op == token.REM {
+					if k, isK := constInt(x.Origin(t.Y)); !isK || k == 0 {
+						bad, badPos = "a division", in.Pos()
+					}
+				}
+			case *ssa.Panic:
+				bad, badPos = "a panic", in.Pos()
+			}
+		})
+		c.Check(rule, fnName(rootOf(f))+"#"+fnName(f), bad == "", orPos(badPos, f.Pos()), "the function that recovers contains %s: the panic it recovered is gone by then, this one escapes", orStr(bad, "nothing that can fault"))
+	}
+	c.Min(rule, 4)
 }
